@@ -546,3 +546,52 @@ func init() {
 		Stubs:  append([]string{"time.Time modelled as int64 nanoseconds since the Unix epoch (Add/Sub/Before/After/Equal exact in range 1980..2100); math.Ceil/Max as IEEE roundToIntegral/fp.max"}, stubErrors...),
 	})
 }
+
+func init() {
+	register(&PropSpec{
+		ID:   "C05",
+		Pkgs: []string{"root"},
+		Items: func(tier string, seed int64) []Item {
+			var it []Item
+			for ver := 0; ver <= 1; ver++ {
+				for mt := 0; mt < 4; mt++ {
+					set := macUp
+					if mt == 1 || mt == 3 {
+						set = macDown
+					}
+					// single commands everywhere, pairs: all in thorough, a diagonal band in quick
+					for ai, a := range set {
+						for where := 0; where <= 1; where++ {
+							it = append(it, Item{PkgKey: "root", Func: "VerifC05_E2E", Shape: []int{ver, mt, a, -1, where, 3}})
+						}
+						for bi, b := range set {
+							if tier != "thorough" && (ai+bi)%5 != 0 {
+								continue
+							}
+							if specSizes[a]+specSizes[b]+2 > 15 {
+								continue
+							}
+							it = append(it, Item{PkgKey: "root", Func: "VerifC05_E2E", Shape: []int{ver, mt, a, b, 0, 17}})
+							it = append(it, Item{PkgKey: "root", Func: "VerifC05_E2E", Shape: []int{ver, mt, a, b, 1, 0}})
+						}
+					}
+					for _, n := range pick(tier, []int{0, 1, 16, 51}, []int{0, 1, 15, 16, 17, 33, 51, 115, 222}) {
+						it = append(it, Item{PkgKey: "root", Func: "VerifC05_E2E", Shape: []int{ver, mt, -1, -1, 0, n}})
+					}
+					for _, s := range dataShapes("quick", 255) {
+						if tier != "thorough" && s[2] > 17 {
+							continue
+						}
+						it = append(it, Item{PkgKey: "root", Func: "VerifC05_Tamper", Shape: append([]int{ver, mt}, s...)})
+					}
+				}
+			}
+			return it
+		},
+		Bounds: func(tier string) map[string]string { return map[string]string{} },
+		Stubs:  append(append([]string{}, stubCrypto...), stubErrors...),
+	})
+}
+
+// payload sizes of the 29 MAC commands in spec-table order (harness/root/spec_mac.go)
+var specSizes = []int{1, 2, 4, 1, 4, 5, 1, 1, 4, 1, 1, 5, 2, 1, 4, 3, 1, 1, 1, 1, 2, 1, 1, 1, 1, 1, 1, 1, 1}
